@@ -539,11 +539,14 @@ def enabled (c : Ctl) : In → Bool
 
 def stepW (w : W) : In → W
   | .run => if w.c.wsClosed then w else w.handle false .nil   -- Run() does nothing on a connection the peer already closed
+  -- a message the data connection still hands over after it was closed (C13 allows one whose read had completed
+  -- before) is not processed
   | .msgData ok =>
-    if !ok then w.emit .dropData
+    if w.c.wsClosed then w
+    else if !ok then w.emit .dropData
     else if w.c.reader then w.emit .deliver else w.emit .buffer
-  | .msgClose k => w.handleClose k
-  | .msgPlain v => w.handle false v
+  | .msgClose k => if w.c.wsClosed then w else w.handleClose k
+  | .msgPlain v => if w.c.wsClosed then w else w.handle false v
   | .timeout => (w.stop).handle true .nil
   | .approve => w.approve
   | .abort => w.abort
